@@ -1190,6 +1190,12 @@ class PyFat(object):
             tmp_val2 = tmp_val2 // 2
         self._fat_size = \
             math.ceil((tmp_val1 + tmp_val2 - 1) // tmp_val2 / sector_size)
+        data_sectors = num_sec - (rsvd_sec_cnt + self.root_dir_sectors +
+                                  number_of_fats * self._fat_size)
+        if sec_per_clus == 0 or data_sectors < sec_per_clus:
+            raise PyFATException(f"Cannot create a FAT{fat_type} filesystem "
+                                 f"of {size} bytes.", errno=errno.EINVAL)
+
         if fat_type == PyFat.FAT_TYPE_FAT32:
             fat_size_16 = 0
             fat_size_32 = self._fat_size
